@@ -78,3 +78,66 @@ Definition mkNs (l : list (nat * nat * bool)) : list snode := map (fun x => mkN 
 Definition mkOs (l : list (nat * nat * bool)) : list sorig := map (fun x => mkO (fst (fst x)) (snd (fst x)) (snd x)) l.
 Definition restore_case_ok (c : bool * list (nat * nat * bool) * list (nat * nat * bool) * list nat) : bool :=
   let '(a, os, ns, obs) := c in all_obs_ok (restore a (mkOs os) (mkNs ns)) obs.
+
+(* ---------------------------------------------------------------------------------------------- *)
+(* collections.Counter(list).most_common(1)[0][0]: highest count, the first seen on ties *)
+Definition count (x : nat) (l : list nat) : nat := length (filter (Nat.eqb x) l).
+Fixpoint most_common_from (best : nat) (l all : list nat) : nat :=
+  match l with
+  | [] => best
+  | x :: tl => most_common_from (if count best all <? count x all then x else best) tl all
+  end.
+Definition most_common (l : list nat) : nat :=
+  match l with [] => 0 | x :: tl => most_common_from x tl l end.
+
+(* the spelling _substitute_original_strings writes (before the b/r/f prefix adjustment) *)
+Definition restore_pick (a : bool) (origs : list sorig) (news : list snode) : list (option nat) :=
+  map (option_map most_common) (restore a origs news).
+
+(* observed: [] = left alone, otherwise the original spellings equal to what was written (modulo prefix) *)
+Definition pick_ok (m : option nat) (o : list nat) : bool :=
+  match m, o with
+  | None, [] => true
+  | Some t, _ :: _ => mem t o
+  | _, _ => false
+  end.
+Fixpoint all_pick_ok (ms : list (option nat)) (os : list (list nat)) : bool :=
+  match ms, os with
+  | [], [] => true
+  | m :: ms', o :: os' => pick_ok m o && all_pick_ok ms' os'
+  | _, _ => false
+  end.
+Definition restore_pick_case_ok (c : bool * list (nat * nat * bool) * list (nat * nat * bool) * list (list nat)) : bool :=
+  let '(a, os, ns, obs) := c in all_pick_ok (restore_pick a (mkOs os) (mkNs ns)) obs.
+
+(* ---------------------------------------------------------------------------------------------- *)
+(* processing._substitute_original_fstrings (processing.py:205-259): JoinedStr nodes, keyed by their
+   ast.unparse text; no early exit; the guard on the overwritten spelling is is_valid_python ONLY.
+     fo_valid / fn_valid = is_valid_python(spelling)
+     fn_self             = the spelling, parsed on its own, is an f-string with that unparse key
+                           (NOT checked by the code; the harness reports it for every node) *)
+Record forig := mkFO { fo_key : nat; fo_text : nat; fo_valid : bool }.
+Record fnode := mkFN { fn_key : nat; fn_text : nat; fn_valid : bool; fn_self : bool }.
+
+Definition fcands (origs : list forig) (k : nat) : list nat :=
+  map fo_text (filter (fun o => (fo_key o =? k) && fo_valid o) origs).
+
+Definition frestore_node (origs : list forig) (nd : fnode) : option nat :=
+  let c := fcands origs (fn_key nd) in
+  match c with
+  | [] => None
+  | _ => if fn_valid nd && negb (mem (fn_text nd) c) then Some (most_common c) else None
+  end.
+Definition frestore (origs : list forig) (news : list fnode) : list (option nat) :=
+  map (frestore_node origs) news.
+
+(* the structural guard under which the step is value preserving *)
+Definition f_guard (origs : list forig) (news : list fnode) : bool :=
+  forallb (fun nd => match frestore_node origs nd with Some _ => fn_self nd | None => true end) news.
+
+Definition mkFOs (l : list (nat * nat * bool)) : list forig := map (fun x => mkFO (fst (fst x)) (snd (fst x)) (snd x)) l.
+Definition mkFNs (l : list (nat * nat * bool * bool)) : list fnode :=
+  map (fun x => mkFN (fst (fst (fst x))) (snd (fst (fst x))) (snd (fst x)) (snd x)) l.
+Definition frestore_case_ok (c : list (nat * nat * bool) * list (nat * nat * bool * bool) * list (list nat)) : bool :=
+  let '(os, ns, obs) := c in
+  all_pick_ok (frestore (mkFOs os) (mkFNs ns)) obs && f_guard (mkFOs os) (mkFNs ns).
